@@ -2,7 +2,7 @@
    "the scheduler never ends up waiting on an idle timer while a due task exists".
    For every schedule function [nxt] (NO monotonicity assumption), EVERY scheduler variant [sc] (the pinned one included:
    neither sc_clock_check nor sc_err_on_mismatch is needed in this configuration) and every trace accepted by [vrun]
-   from [vsys_init].  No existing file is modified.
+   from [vsys_init].  The model (VSys.v) includes the transient failure of the store's Pop inside MarkAsDispatched.
 
    THE UNRESTRICTED STATEMENT IS FALSE
        reachable s, vs_pc s = PSelect, no pending fire  ==>  no pending occurrence is due
@@ -18,7 +18,17 @@
      (VC05_pending_fire_not_at_rest: "no pending fire" belongs to being at rest - with the fire still in the channel the
       head is of course due.)
 
-   THE ONE HYPOTHESIS
+     VC05_rest_no_retry_refuted   (vcex_no_retry)   the store's Pop fails inside MarkAsDispatched (nothing popped, nothing
+                                  re-armed, the fire is consumed), Step returns DispatchErr and the driver answers with
+                                  Step instead of Retry: Step finds no lastTask and no error flag and waits on an idle
+                                  timer with the head due.  vtimer_started = true; fixed and pinned scheduler alike.
+
+   THE TWO HYPOTHESES
+     vtrace_disciplined tr = true : after a VStepEnd (SDispatchErr _) _ the next driver call is VRetryBegin, not VStepBegin
+     (vdispatch_err_retried, cf. RestProofs.dispatch_err_retried; a VNew replaces the whole system).  Only needed when a Pop
+     has failed: VC05_rest_no_due_faultfree / VC05_predicate_at_rest_faultfree need has_failed_mark tr = false instead
+     (vdriver_ok tr := disciplined || no failed Pop is what the state form uses).  owed_run: in an accepted trace the
+     flag of the predicate is exactly "vs_retry holds a DispatchErr".
      vtimer_started tr = true : a VStartTimer occurs after the last VNew of the trace (the user started the timer of the
      present store).  vtimer_started_exact: in every accepted trace ending in Step's select,
          cr_started (vs_cron s) = vtimer_started tr,
@@ -29,23 +39,28 @@
      - "the user never stops the timer": there is no user-level stop label; the scheduler's own StopTimer (pc PRestart2)
        is always followed by its StartTimer before Step can reach select.
      - clock readings of VEdit / VStartTimer: the monitor itself demands them equal to vs_now (gtime_eqb n now).
-     - "an error state is answered by Retry": not needed.  The only commitments that survive a StepEnd are getNextErr
-       (vs_err, consumed by the next Step OR kept by Retry) and lastTask (vs_last, dispatched by the next Step); the
-       DispatchErr path of MarkAsDispatched is only taken when the timer is already in order (see Commit below).
+     - "EVERY error state is answered by Retry": not needed, only DispatchErr.  The other commitments that survive a
+       StepEnd are getNextErr (vs_err, consumed by the next Step OR kept by Retry) and lastTask (vs_last, dispatched by
+       the next Step); without a failed Pop the DispatchErr path of MarkAsDispatched is only taken when the timer is
+       already in order (see Commit below).
      - "nxt strictly increasing": Pop re-arms for whatever the new head is (fired at once if due): not needed.
      - sc_err_on_mismatch / sc_clock_check: while a consumed fire is unanswered the head is due and unchanged
        (rc_pd, Commit PFire1/PFire2), so Step's NextScheduled comparison and clock check both succeed and the
        mismatch branch is only taken when an EditTask / StartTimer has re-armed the timer meanwhile.
 
    PROVED
-     R_step / R_reachable       the invariant R (below) holds in every reachable state.
-     rest_no_due                R s, PSelect, no pending fire, store started ==> every pending occurrence is in the future.
+     R_step / R_run             preservation of R D (side condition D -> F -> disc s l: the driver discipline per label).
+     R_reachable                R False (the timer facts RC and r_last) holds in every reachable state;
+     R_disciplined / R_faultfree  R True (with the commitment r_wake) for a disciplined driver / without a failed Pop.
+     rest_no_due                R True s, PSelect, no pending fire, store started ==> every pending occurrence is in the future.
      rest_armed_for_head        ... and the timer is armed for exactly the head's time (C17 seen from the pipeline).
-     VC05_rest_no_due_state     accepted trace, state hypothesis cr_started = true.
-  A. VC05_rest_no_due           accepted trace, vtimer_started tr = true, PSelect, no pending fire ==> nothing pending is due.
-     VC05_rest_armed_for_head   same hypotheses: tm_armed = Some (head's time), which is > now.
-  B. VC05_predicate_at_rest     accepted tr ++ [VDump pending now true], vtimer_started, no pending fire in the final state
-                                ==> vc05_ok (tr ++ [VDump pending now true]) = true.
+     VC05_rest_no_due_state     accepted trace, vdriver_ok tr = true, state hypothesis cr_started = true.
+  A. VC05_rest_no_due           accepted trace, vtimer_started tr = true, vtrace_disciplined tr = true, PSelect, no pending
+                                fire ==> nothing pending is due.  (_faultfree: has_failed_mark tr = false instead.)
+     VC05_rest_armed_for_head   same hypotheses (vdriver_ok): tm_armed = Some (head's time), which is > now.
+  B. VC05_predicate_at_rest     accepted tr ++ [VDump pending now true], vtimer_started, vtrace_disciplined, no pending fire
+                                in the final state ==> vc05_ok (tr ++ [VDump pending now true]) = true.
+                                VC05_nonvacuous_retry(_by_theorem): a run with a failed Pop answered by Retry.
   C. VC05_nonvacuous            ex_rest_trace: fire, announce, dispatch (pop + re-arm), work start / end, MarkAsDone, back
                                 to select, dump - accepted, all hypotheses of B hold, vall_ok = true;
                                 VC05_nonvacuous_by_theorem applies B to it; VC05_nonvacuous_pinned: same run, scfg_pinned.
@@ -59,17 +74,22 @@
           means the head is due (rc_pd).
      r_wake   started ==> for the head h: [woken] (fire pending or armed for h) or [Commit pc err last ids now h]:
               PFire1: h is due.  PFire2 next: next is h (bound id, same time) and h is due.
-              PIdle / PStep0 / PEnd / PRetryDE: vs_err = true (the next Step restarts the timer) or [LastBound]
-              (vs_last = Some t and the head is known under t's id: MarkAsDispatched will take the Pop branch).
+              PIdle / PStep0 / PEnd / PRetryDE / PDisp1 / PDisp2: vs_err = true (the next Step restarts the timer) or
+              [LastBound] (vs_last = Some t and the head is known under t's id: MarkAsDispatched will take the Pop
+              branch), or - PEnd (SDispatchErr t), PIdle with vs_retry = Some (SDispatchErr t), PRetryDE t, PDisp1 _ t -
+              [RetryBound (t_id t)]: a Pop failed; the head is still known under t's id and the record still has a
+              Scheduled task for it, so Retry(DispatchErr) will find it, and MarkAsDispatched will pop and re-arm (or
+              report the timer error if the task is not due any more).  A VStepBegin drops that commitment: [disc].
               PRestart1 / PRestart2: the restart is under way.  PRestart3 / PStepMain: LastBound only.
-              PSelect / PDisp2: no commitment possible - this is what makes the rest theorem.
+              PSelect: no commitment possible - this is what makes the rest theorem.
      r_last   vs_last = Some t ==> the record still has t's id (excludes the third branch of v_mark_disp, which
               would answer ROk without popping).
    Every operation that changes the pending set on a started store (EditTask, Pop, StartTimer) ends with resetTimer:
    [Rearmed] / rearmed_RC re-establish RC and woken from scratch, whatever was owed before (with_reset_rearmed,
    edit_rearmed, start_rearmed, pop_rearmed; the latter needs Inv15 via VI4 to know Pop finds the head's entry).
-   VI3 (VSysProofs.v) supplies: vs_last = None at PSelect/PFire1/PFire2, PFire2 carries the recorded task, PDisp1 dead,
-   Retry(DispatchErr) finds nothing.  Aux / Aux0: the trace flag vs. cr_started.
+   VI3 (VSysProofs.v) supplies: vs_last = None at PSelect/PFire1/PFire2 and on the Retry path, PFire2 carries the recorded
+   task, recorded tasks are Scheduled, and "Retry(DispatchErr) finds nothing unless a Pop has failed" (F).
+   Aux / Aux0: the trace flag vs. cr_started (Aux0: in a store the user has not started the record is empty).
    Compile time: about 8 s. *)
 From GK Require Import VSys.
 From GK.Proofs Require Import BaseLemmas RepoProofs2 CronProofs CronInv SysProofs VSysProofs.
@@ -135,6 +155,40 @@ Proof.
     + intros h0 H. discriminate H.
     + intros _ h0 H0. replace h0 with h by congruence. right. rewrite E. reflexivity.
 Qed.
+
+(* ---- driver discipline (cf. RestProofs.dispatch_err_retried): after a Step / Retry that returned DispatchErr the next
+   driver call is Retry, not Step.  [pending]: a DispatchErr is unanswered.  (VNew replaces the whole system.) ---- *)
+Definition vis_dispatch_err (st : sstate) : bool := match st with SDispatchErr _ => true | _ => false end.
+Definition owed_next (pending : bool) (l : vlabel) : bool :=
+  match l with
+  | VStepEnd st _ => vis_dispatch_err st
+  | VStepBegin | VRetryBegin _ | VNew _ _ _ _ => false
+  | _ => pending
+  end.
+Fixpoint vdispatch_err_retried (pending : bool) (tr : list vlabel) : bool :=
+  match tr with
+  | [] => true
+  | l :: r => match l with VStepBegin => negb pending | _ => true end && vdispatch_err_retried (owed_next pending l) r
+  end.
+Fixpoint vowed (pending : bool) (tr : list vlabel) : bool :=
+  match tr with [] => pending | l :: r => vowed (owed_next pending l) r end.
+Definition vtrace_disciplined (tr : list vlabel) : bool := vdispatch_err_retried false tr.
+(* the same in the state: Retry is owed iff vs_retry holds a DispatchErr *)
+Definition owed (s : vsys) : bool := match vs_retry s with Some st => vis_dispatch_err st | None => false end.
+
+Lemma vdispatch_err_retried_app a : forall p b,
+  vdispatch_err_retried p (a ++ b) = vdispatch_err_retried p a && vdispatch_err_retried (vowed p a) b.
+Proof.
+  induction a as [|l a IH]; intros p b; cbn [app vdispatch_err_retried vowed]; [reflexivity|].
+  rewrite IH, andb_assoc. reflexivity.
+Qed.
+Lemma vowed_app a : forall p b, vowed p (a ++ b) = vowed (vowed p a) b.
+Proof. induction a as [|l a IH]; intros p b; cbn [app vowed]; [reflexivity | apply IH]. Qed.
+Lemma sstate_eqb_de a b : sstate_eqb a b = true -> vis_dispatch_err a = vis_dispatch_err b.
+Proof. destruct a, b; cbn; intros E; try discriminate E; reflexivity. Qed.
+Lemma rec_none_sub (r r' : list (string * task)) :
+  (forall i t, rec_get r' i = Some t -> rec_get r i = Some t) -> (forall i, rec_get r i = None) -> forall i, rec_get r' i = None.
+Proof. intros Hs Hn i. destruct (rec_get r' i) eqn:E; [|reflexivity]. apply Hs in E. rewrite Hn in E. discriminate. Qed.
 
 Section VRest.
   Variable nxt : nat -> gtime -> gtime.
@@ -217,45 +271,62 @@ Section VRest.
   (* the scheduler's lastTask is the pending head: MarkAsDispatched(lastTask.Id) will pop (and re-arm) *)
   Definition LastBound (last : option task) (ids : list (nat * string)) (h : ptask) : Prop :=
     exists t, last = Some t /\ id_of ids (pt_ins h) = Some (t_id t).
+  (* a Pop inside MarkAsDispatched(id) failed: the record still has the task, Scheduled, and the pending head is still
+     known under id - Retry(DispatchErr) will read it again (GetById), and MarkAsDispatched will take the Pop branch *)
+  Definition RetryBound (id : string) (ids : list (nat * string)) (rc : list (string * task)) (h : ptask) : Prop :=
+    id_of ids (pt_ins h) = Some id /\ exists t', rec_get rc id = Some t' /\ t_state t' = Scheduled.
   (* who is committed to re-arm the timer while the consumed fire is not yet answered *)
-  Definition Commit (pc : spc) (err : bool) (last : option task) (ids : list (nat * string)) (now : gtime) (h : ptask) : Prop :=
+  Definition Commit (pc : spc) (err : bool) (last : option task) (retry : option sstate) (ids : list (nat * string))
+             (rc : list (string * task)) (now : gtime) (h : ptask) : Prop :=
     match pc with
-    | PIdle | PStep0 | PEnd _ _ | PRetryDE _ | PRetryTD _ _ => err = true \/ LastBound last ids h
+    | PIdle => err = true \/ LastBound last ids h
+               \/ exists t, retry = Some (SDispatchErr t) /\ RetryBound (t_id t) ids rc h
+    | PStep0 | PRetryTD _ _ | PDisp2 _ _ => err = true \/ LastBound last ids h
+    | PEnd st _ => err = true \/ LastBound last ids h
+                   \/ match st with SDispatchErr t => RetryBound (t_id t) ids rc h | _ => False end
+    | PRetryDE t | PDisp1 _ t => err = true \/ LastBound last ids h \/ RetryBound (t_id t) ids rc h
     | PRestart1 _ | PRestart2 _ => True
     | PRestart3 _ | PStepMain => LastBound last ids h
     | PFire1 => hsched h <= inst now
     | PFire2 next => id_of ids (pt_ins h) = Some (t_id next) /\ hsched h <= inst now /\ t_sched next = t_sched (pt_task h)
-    | PSelect | PDisp1 _ _ | PDisp2 _ _ => False
+    | PSelect => False
     end.
 
-  Record R (s : vsys) : Prop := mkR {
+  (* D: "the driver has been disciplined so far" (it answered every DispatchErr with Retry).  With D := False only the
+     timer facts RC and r_last remain: they hold of every accepted trace. *)
+  Record R (D : Prop) (s : vsys) : Prop := mkR {
     r_rc : RC (vs_cron s) (vs_now s);
-    r_wake : cr_started (vs_cron s) = true -> forall h, pt_min None (cr_pending (vs_cron s)) = Some h ->
-             woken (cr_timer (vs_cron s)) h \/ Commit (vs_pc s) (vs_err s) (vs_last s) (vs_ids s) (vs_now s) h;
+    r_wake : D -> cr_started (vs_cron s) = true -> forall h, pt_min None (cr_pending (vs_cron s)) = Some h ->
+             woken (cr_timer (vs_cron s)) h
+             \/ Commit (vs_pc s) (vs_err s) (vs_last s) (vs_retry s) (vs_ids s) (vs_record s) (vs_now s) h;
     r_last : forall t, vs_last s = Some t -> rec_get (vs_record s) (t_id t) <> None }.
 
-  Lemma R_init : R vsys_init.
+  Lemma R_init D : R D vsys_init.
   Proof. constructor; cbn; try discriminate. apply RC_idle. reflexivity. Qed.
 
-  Lemma R_unstarted s' :
+  Lemma R_unstarted D s' :
     RC (vs_cron s') (vs_now s') -> cr_started (vs_cron s') = false ->
-    (forall t, vs_last s' = Some t -> rec_get (vs_record s') (t_id t) <> None) -> R s'.
+    (forall t, vs_last s' = Some t -> rec_get (vs_record s') (t_id t) <> None) -> R D s'.
   Proof. intros C S L. constructor; auto. rewrite S. discriminate. Qed.
 
-  Lemma R_rearmed s' :
+  Lemma R_rearmed D s' :
     Inv17 (vs_cron s') -> Rearmed (vs_cron s') (vs_now s') ->
-    (forall t, vs_last s' = Some t -> rec_get (vs_record s') (t_id t) <> None) -> R s'.
+    (forall t, vs_last s' = Some t -> rec_get (vs_record s') (t_id t) <> None) -> R D s'.
   Proof. intros I E L. destruct (rearmed_RC _ _ I E) as [C W]. constructor; auto. Qed.
 
-  Lemma R_frame s s' : R s -> vs_cron s' = vs_cron s -> vs_now s' = vs_now s ->
-    (forall h, pt_min None (cr_pending (vs_cron s)) = Some h ->
-               Commit (vs_pc s) (vs_err s) (vs_last s) (vs_ids s) (vs_now s) h ->
-               Commit (vs_pc s') (vs_err s') (vs_last s') (vs_ids s') (vs_now s) h) ->
-    (forall t, vs_last s' = Some t -> rec_get (vs_record s') (t_id t) <> None) -> R s'.
+  Lemma R_frame (D : Prop) s s' : R D s -> vs_cron s' = vs_cron s -> vs_now s' = vs_now s ->
+    (D -> forall h, pt_min None (cr_pending (vs_cron s)) = Some h ->
+               Commit (vs_pc s) (vs_err s) (vs_last s) (vs_retry s) (vs_ids s) (vs_record s) (vs_now s) h ->
+               Commit (vs_pc s') (vs_err s') (vs_last s') (vs_retry s') (vs_ids s') (vs_record s') (vs_now s) h) ->
+    (forall t, vs_last s' = Some t -> rec_get (vs_record s') (t_id t) <> None) -> R D s'.
   Proof.
     intros [C W L] Ec En HC HL. constructor; rewrite ?Ec, ?En; auto.
-    intros St h Hh. destruct (W St h Hh) as [X|X]; [left; exact X | right; apply HC; assumption].
+    intros Dd St h Hh. destruct (W Dd St h Hh) as [X|X]; [left; exact X | right; apply HC; assumption].
   Qed.
+
+  (* driver discipline, per label: a DispatchErr is answered by Retry, not by Step *)
+  Definition disc (s : vsys) (l : vlabel) : Prop :=
+    match l with VStepBegin => forall t, vs_retry s <> Some (SDispatchErr t) | _ => True end.
 
   (* ================================================================================================ *)
   (* 3. Preservation                                                                                   *)
@@ -274,13 +345,13 @@ Section VRest.
 
   (* MarkAsDispatched of the volatile repository: either it pops (the store re-arms), or the store is left alone and
      the id is NOT the one the pending head is known under *)
-  Lemma v_mark_disp_R s id s1 x : R s -> Inv15 nxt (vs_cron s) -> v_mark_disp nxt s id = (s1, x) ->
+  Lemma v_mark_disp_R D s id s1 x : R D s -> Inv15 nxt (vs_cron s) -> v_mark_disp nxt s id = (s1, x) ->
     RC (vs_cron s1) (vs_now s)
     /\ (cr_started (vs_cron s1) = true -> forall h, pt_min None (cr_pending (vs_cron s1)) = Some h ->
         woken (cr_timer (vs_cron s1)) h
         \/ (vs_cron s1 = vs_cron s /\ id_of (vs_ids s) (pt_ins h) <> Some id)).
   Proof.
-    intros I I15 M. pose proof (r_rc s I) as IC. pose proof (rc17 _ _ IC) as I17. unfold v_mark_disp in M.
+    intros I I15 M. pose proof (r_rc D s I) as IC. pose proof (rc17 _ _ IC) as I17. unfold v_mark_disp in M.
     match type of M with (if ?b then _ else _) = _ => destruct b eqn:B end.
     - destruct (pt_min None (cr_pending (vs_cron s))) as [h|] eqn:Hm; [|discriminate B].
       destruct (pop_rearmed (vs_cron s) (vs_now s) h I17 I15 Hm) as [P17 PR].
@@ -291,13 +362,14 @@ Section VRest.
       rewrite Hh, Eid, String.eqb_refl in B. discriminate B.
   Qed.
 
-  Ltac cm P := let h := fresh "h" in let Hh := fresh "Hh" in let C := fresh "C" in
-    intros h Hh C; rewrite ?P in C; cbn [Commit] in *; vf; auto; try tauto.
+  Ltac cm P := let Dd := fresh "Dd" in let h := fresh "h" in let Hh := fresh "Hh" in let C := fresh "C" in
+    intros Dd h Hh C; rewrite ?P in C; cbn [Commit] in *; vf; auto; try tauto.
 
-  Lemma R_step sc G s l s' : VI3 G s -> VI4 nxt s -> R s -> vstep sc s l = Some s' -> R s'.
+  Lemma R_step sc G (F D : Prop) s l s' :
+    VI3 G F s -> VI4 nxt s -> R D s -> (D -> F -> disc s l) -> vstep sc s l = Some s' -> R D s'.
   Proof.
-    intros I3 I4 I H. pose proof (w_inv nxt s I4) as I15. pose proof (r_rc s I) as IC. pose proof (rc17 _ _ IC) as I17.
-    pose proof (r_last s I) as IL. pose proof (v_lastpc _ s I3) as Lpc. pose proof (v_pc _ s I3) as Ipc3.
+    intros I3 I4 I HD H. pose proof (w_inv nxt s I4) as I15. pose proof (r_rc D s I) as IC. pose proof (rc17 _ _ IC) as I17.
+    pose proof (r_last D s I) as IL. pose proof (v_lastpc _ _ s I3) as Lpc. pose proof (v_pc _ _ s I3) as Ipc3.
     destruct l; unfold vsys_step in H; cbv beta iota zeta in H.
     - (* VNew *)
       destruct (cstep nxt cron_empty (CNew now rows initial)) as [c' r] eqn:C.
@@ -314,21 +386,27 @@ Section VRest.
     - (* VAdvance *)
       destruct (inst (vs_now s) <=? inst now) eqn:L; inv H. apply Z.leb_le in L. constructor; vf.
       + apply (RC_advance _ (vs_now s)); assumption.
-      + intros St h Hh. destruct (r_wake s I St h Hh) as [W|C].
+      + intros Dd St h Hh. destruct (r_wake D s I Dd St h Hh) as [W|C].
         * left. apply woken_advance. exact W.
         * right. destruct (vs_pc s); cbn [Commit] in *; auto; [lia|]. destruct C as (C1 & C2 & C3). repeat split; auto. lia.
       + exact IL.
-    - (* VStepBegin *)
-      destruct (vs_pc s) eqn:P; try discriminate. inv H. apply (R_frame s); vf; auto. cm P.
+    - (* VStepBegin: here the driver discipline is used *)
+      destruct (vs_pc s) eqn:P; try discriminate. inv H. apply (R_frame D s); vf; auto.
+      intros Dd h Hh C. rewrite P in C. cbn [Commit] in *. destruct C as [C|[C|(t & C1 & C2)]]; [tauto | tauto |]. exfalso.
+      destruct (v_retry _ _ s I3 t C1) as [Ff|N].
+      + exact (HD Dd Ff t C1).
+      + destruct C2 as (_ & t' & G' & _). congruence.
     - (* VRetryBegin *)
       destruct (vs_pc s) eqn:P; try discriminate. destruct (vs_retry s) as [p|] eqn:Rt; [|discriminate].
       destruct (sstate_eqb p prev) eqn:E; [|discriminate].
-      destruct prev; inv H; apply (R_frame s); vf; auto; cm P.
+      destruct prev; inv H; apply (R_frame D s); vf; auto; intros Dd h Hh C; rewrite P in C; cbn [Commit] in *; auto;
+        (destruct C as [C|[C|(t0 & C1 & C2)]]; [tauto | tauto |]); rewrite Rt in C1; inv C1; cbn in E; try discriminate E.
+      apply String.eqb_eq in E. rewrite <- E. tauto.
     - (* VCall *)
       destruct (vs_pc s) eqn:P; destruct c; cbv beta iota in H; try discriminate H; try contradiction.
       + (* PStep0 / CLtue *)
         destruct (vs_err s) eqn:Er; cbn [negb andb] in H; [discriminate|].
-        destruct (cret_eqb r (RBool false)); inv H. apply (R_frame s); vf; auto. cm P. destruct C as [C|C]; [congruence | exact C].
+        destruct (cret_eqb r (RBool false)); inv H. apply (R_frame D s); vf; auto. cm P. destruct C as [C|C]; [congruence | exact C].
       + (* PStep0 / CStop *)
         destruct (vs_err s && cret_eqb r RUnit); inv H. destruct (RC_stop (vs_cron s) (vs_now s) I17) as [X1 X2].
         apply R_unstarted; vf; auto.
@@ -339,87 +417,191 @@ Section VRest.
         destruct (cret_eqb r RUnit); inv H. destruct (start_rearmed (vs_cron s) (vs_now s) I17) as [E17 ER].
         apply R_rearmed; vf; auto.
       + (* PRestart3 / CLtue *)
-        destruct (cret_eqb r (RBool false)); inv H. destruct k; apply (R_frame s); vf; auto; cm P.
+        destruct (cret_eqb r (RBool false)); inv H. destruct k; apply (R_frame D s); vf; auto; cm P.
       + (* PStepMain / CTimerCh *)
         destruct (vs_last s) eqn:L; [discriminate|]. destruct (cret_eqb r RUnit); inv H.
-        apply (R_frame s); vf; auto; try discriminate. cm P. destruct C as (t & C & _). congruence.
+        apply (R_frame D s); vf; auto; try discriminate. cm P. destruct C as (t & C & _). congruence.
       + (* PStepMain / CMarkDisp *)
         destruct (vs_last s) as [t|] eqn:L; [|discriminate].
         destruct (String.eqb_spec id (t_id t)) as [->|]; [|discriminate].
+        destruct (cret_eqb r (RRes (RErr EOther)) && head_bound s (t_id t)) eqn:FM.
+        { (* the Pop failed: the timer stays as it is, Retry(DispatchErr) is now committed to the dispatch *)
+          apply andb_true_iff in FM. destruct FM as [_ FM]. apply head_bound_spec in FM. destruct FM as (h0 & Hm0 & Hb0). inv H.
+          apply (R_frame D s); vf; auto; [|discriminate].
+          intros Dd h Hh _. cbn [Commit]. right. right. assert (h = h0) by congruence. subst h0. split; [exact Hb0|].
+          destruct (rec_get (vs_record s) (t_id t)) as [t'|] eqn:G'; [|exfalso; exact (IL t eq_refl G')].
+          exists t'. split; [reflexivity | exact (v_rs _ _ s I3 _ _ G')]. }
         destruct (v_mark_disp nxt s (t_id t)) as [s1 x] eqn:M. destruct (cret_eqb r (RRes x)); [|discriminate]. inv H.
-        destruct (v_mark_disp_R s (t_id t) s1 x I I15 M) as (X1 & X2).
+        destruct (v_mark_disp_R D s (t_id t) s1 x I I15 M) as (X1 & X2).
         apply v_mark_disp_frame in M.
         destruct M as (M1 & M2 & M3 & M4 & M5 & M6 & M7 & M8 & M9 & M10 & Mrec & Merr).
-        assert (W : cr_started (vs_cron s1) = true -> forall h, pt_min None (cr_pending (vs_cron s1)) = Some h ->
+        assert (W : D -> cr_started (vs_cron s1) = true -> forall h, pt_min None (cr_pending (vs_cron s1)) = Some h ->
                     woken (cr_timer (vs_cron s1)) h).
-        { intros St h Hh. destruct (X2 St h Hh) as [W|[Ec Hn]]; [exact W|]. rewrite Ec in *.
-          destruct (r_wake s I St h Hh) as [W|C]; [exact W|]. rewrite P, L in C. cbn [Commit] in C.
+        { intros Dd St h Hh. destruct (X2 St h Hh) as [W|[Ec Hn]]; [exact W|]. rewrite Ec in *.
+          destruct (r_wake D s I Dd St h Hh) as [W|C]; [exact W|]. rewrite P, L in C. cbn [Commit] in C.
           destruct C as (t0 & C1 & C2). inv C1. contradiction. }
         destruct (is_err_res x); constructor; vf; rewrite ?M2; auto; discriminate.
       + (* PSelect / CMarkDone *)
         destruct (vs_results s) as [|[id' o] rest]; [discriminate|].
         match type of H with (if ?b then _ else _) = _ => destruct b end; inv H.
-        apply (R_frame s); vf; auto; try (rewrite Lpc; discriminate). cm P.
+        apply (R_frame D s); vf; auto; try (rewrite Lpc; discriminate). cm P.
       + (* PFire1 / CGetNext *)
         destruct r as [| |x|]; try discriminate H. destruct x as [|obs| |e]; try discriminate H.
         * destruct (head_accept s obs) as [[h ids']|] eqn:HA; inv H.
           apply head_accept_bound in HA. destruct HA as (Hm & Hb & Hs).
-          apply (R_frame s); vf; auto; try (rewrite Lpc; discriminate).
-          intros h0 Hh C. rewrite P in C. cbn [Commit] in *. assert (h0 = h) by congruence. subst h0. auto.
+          apply (R_frame D s); vf; auto; try (rewrite Lpc; discriminate).
+          intros Dd h0 Hh C. rewrite P in C. cbn [Commit] in *. assert (h0 = h) by congruence. subst h0. auto.
         * destruct e; try discriminate H. destruct (pt_min None (cr_pending (vs_cron s))) eqn:Hm; inv H.
-          apply (R_frame s); vf; auto; try discriminate. intros h0 Hh. congruence.
+          apply (R_frame D s); vf; auto; try discriminate. intros Dd h0 Hh. congruence.
       + (* PFire2 / CNextSched *)
         destruct (cret_eqb r (RTime (next_scheduled (vs_cron s)))); [|discriminate].
         match type of H with (if ?b then _ else _) = _ => destruct b eqn:A end; inv H.
-        * apply (R_frame s); vf; auto.
-          -- cm P. right. exists next. tauto.
+        * apply (R_frame D s); vf; auto.
+          -- cm P. right. left. exists next. tauto.
           -- intros t E. inv E. rewrite Ipc3. discriminate.
-        * apply (R_frame s); vf; auto; try discriminate.
-          intros h Hh C. rewrite P in C. cbn [Commit] in *. exfalso. destruct C as (C1 & C2 & C3).
+        * apply (R_frame D s); vf; auto; try discriminate.
+          intros Dd h Hh C. rewrite P in C. cbn [Commit] in *. exfalso. destruct C as (C1 & C2 & C3).
           unfold next_scheduled in A. rewrite Hh in A. cbn [omap] in A. rewrite C3 in A. unfold t_equal, t_after in A.
           rewrite Z.eqb_refl in A. cbn [andb] in A. apply orb_false_iff in A. destruct A as [_ A].
           apply negb_false_iff in A. apply Z.ltb_lt in A. unfold hsched in C2. lia.
+      + (* PDisp1 / CMarkDisp: Retry(DispatchErr) dispatches again *)
+        destruct (String.eqb_spec id (t_id t)) as [->|]; [|discriminate].
+        destruct (cret_eqb r (RRes (RErr EOther)) && head_bound s (t_id t)) eqn:FM.
+        { inv H. apply (R_frame D s); vf; auto. cm P. }
+        destruct (v_mark_disp nxt s (t_id t)) as [s1 x] eqn:M. destruct (cret_eqb r (RRes x)); [|discriminate]. inv H.
+        destruct (v_mark_disp_R D s (t_id t) s1 x I I15 M) as (X1 & X2).
+        apply v_mark_disp_frame in M.
+        destruct M as (M1 & M2 & M3 & M4 & M5 & M6 & M7 & M8 & M9 & M10 & Mrec & Merr).
+        assert (W : D -> cr_started (vs_cron s1) = true -> forall h, pt_min None (cr_pending (vs_cron s1)) = Some h ->
+                    woken (cr_timer (vs_cron s1)) h \/ (vs_err s = true \/ LastBound (vs_last s) (vs_ids s) h)).
+        { intros Dd St h Hh. destruct (X2 St h Hh) as [W|[Ec Hn]]; [left; exact W|]. rewrite Ec in *.
+          destruct (r_wake D s I Dd St h Hh) as [W|C]; [left; exact W|]. right. rewrite P in C. cbn [Commit] in C.
+          destruct C as [C|[C|(C & _)]]; [tauto | tauto | contradiction]. }
+        destruct (is_err_res x); constructor; vf; rewrite ?M1, ?M2, ?M3, ?M4; auto; try (rewrite Lpc; discriminate);
+          (intros Dd St h Hh; destruct (W Dd St h Hh) as [Y|Y]; [left; exact Y | right; cbn [Commit]; tauto]).
       + (* PDisp2 / CGetById *)
         destruct (String.eqb_spec id (t_id t)) as [->|]; [|discriminate].
         destruct (rec_get (vs_record s) (t_id t)) as [t'|] eqn:G0.
-        * destruct (cret_eqb r (RRes (RTask t'))); inv H. apply (R_frame s); vf; auto. cm P.
-        * destruct (cret_eqb r (RRes (RErr EIdNotFound))); inv H. apply (R_frame s); vf; auto. cm P.
+        * destruct (cret_eqb r (RRes (RTask t'))); inv H. apply (R_frame D s); vf; auto. cm P.
+        * destruct (cret_eqb r (RRes (RErr EIdNotFound))); inv H. apply (R_frame D s); vf; auto. cm P.
       + (* PRetryDE / CGetById *)
-        destruct (String.eqb_spec id (t_id t)) as [->|]; [|discriminate]. rewrite Ipc3 in H.
-        destruct (cret_eqb r (RRes (RErr EIdNotFound))); inv H. apply (R_frame s); vf; auto. cm P.
+        destruct (String.eqb_spec id (t_id t)) as [->|]; [|discriminate].
+        destruct (rec_get (vs_record s) (t_id t)) as [t'|] eqn:G0.
+        * destruct (cret_eqb r (RRes (RTask t'))); [|discriminate].
+          pose proof (v_rs _ _ s I3 _ _ G0) as Es. pose proof (v_rk _ _ s I3 _ _ G0) as Ek. rewrite Es in H.
+          destruct (t_after (t_sched t') (vs_now s)); inv H; apply (R_frame D s); vf; auto; try discriminate; cm P.
+          rewrite Ek. tauto.
+        * destruct (cret_eqb r (RRes (RErr EIdNotFound))); inv H. apply (R_frame D s); vf; auto. cm P.
+          destruct C as [C|[C|(_ & t' & G' & _)]]; [tauto | tauto | congruence].
     - (* VFire *)
       destruct (vs_pc s) eqn:P; try discriminate. destruct (tm_pending (cr_timer (vs_cron s))) eqn:Pe; inv H.
       constructor; vf; auto.
       + apply RC_consume. exact IC.
-      + intros _ h Hh. right. cbn [Commit]. exact (rc_pd _ _ IC h Pe Hh).
+      + intros _ _ h Hh. right. cbn [Commit]. exact (rc_pd _ _ IC h Pe Hh).
     - (* VStepEnd *)
       destruct (vs_pc s) eqn:P; try discriminate.
       + destruct st as [| |ok0 t0|t0|i0|id o u|]; try discriminate H. destruct o; try discriminate H. destruct u; try discriminate H.
         destruct (vs_results s) as [|[id' o'] rest]; try discriminate H. destruct o'; try discriminate H.
-        match type of H with (if ?b then _ else _) = _ => destruct b end; inv H. apply (R_frame s); vf; auto. cm P.
-      + match type of H with (if ?b then _ else _) = _ => destruct b end; inv H. apply (R_frame s); vf; auto. cm P.
+        match type of H with (if ?b then _ else _) = _ => destruct b end; inv H. apply (R_frame D s); vf; auto. cm P.
+      + match type of H with (if ?b then _ else _) = _ => destruct b end; inv H. apply (R_frame D s); vf; auto. cm P.
+        destruct C as [C|[C|C]]; [tauto | tauto |]. destruct st0; try contradiction C. right. right. exists t. split; [reflexivity | exact C].
     - (* VWorkStart *)
-      destruct (List.find (fun x => String.eqb (fst x) id) (vs_accepted s)) as [[i t]|] eqn:F; [|discriminate].
-      destruct (gtime_eqb now (vs_now s) && task_eqb snap t) eqn:E; inv H. apply (R_frame s); vf; auto.
+      destruct (List.find (fun x => String.eqb (fst x) id) (vs_accepted s)) as [[i t]|] eqn:F0; [|discriminate].
+      destruct (gtime_eqb now (vs_now s) && task_eqb snap t) eqn:E; inv H. apply (R_frame D s); vf; auto.
     - (* VWorkEnd *)
-      destruct (str_mem id (vs_running s)); [inv H; apply (R_frame s); vf; auto|].
+      destruct (str_mem id (vs_running s)); [inv H; apply (R_frame D s); vf; auto|].
       destruct o; try discriminate H.
-      destruct (List.find (fun x => String.eqb (fst x) id) (vs_accepted s)) eqn:F; inv H. apply (R_frame s); vf; auto.
+      destruct (List.find (fun x => String.eqb (fst x) id) (vs_accepted s)) eqn:F0; inv H. apply (R_frame D s); vf; auto.
     - (* VDump *)
       match type of H with (if ?b then _ else _) = _ => destruct b end; inv H. exact I.
     - discriminate.
   Qed.
 
-  Lemma R_run sc tr : forall s s',
-    VI3 (sc_clock_check sc = true) s -> VI4 nxt s -> R s -> vrun nxt sc s tr = Some s' -> R s'.
+  (* the state's "Retry is owed" follows the trace's *)
+  Lemma owed_step sc s l s' : vstep sc s l = Some s' -> owed s' = owed_next (owed s) l.
   Proof.
-    induction tr as [|l tr IH]; intros s s' I3 I4 I H; cbn [vrun] in H.
+    intros H. unfold owed. destruct l; unfold vsys_step in H; cbv beta iota zeta in H; cbn [owed_next].
+    - destruct (cstep nxt cron_empty (CNew now rows initial)) as [c' r]. destruct (cres_eqb r (CRBool ok)); inv H. reflexivity.
+    - destruct (gtime_eqb now (vs_now s)); [|discriminate].
+      destruct (cstep nxt (vs_cron s) (CEdit now removed added)) as [c' r]. destruct (cres_eqb r (CRBool ok)); inv H. reflexivity.
+    - destruct (gtime_eqb now (vs_now s)); inv H. reflexivity.
+    - destruct (inst (vs_now s) <=? inst now); inv H. reflexivity.
+    - destruct (vs_pc s); inv H. reflexivity.
+    - destruct (vs_pc s); try discriminate. destruct (vs_retry s); [|discriminate]. destruct (sstate_eqb s0 prev); [|discriminate].
+      destruct prev; inv H; reflexivity.
+    - destruct (vs_pc s) eqn:P; destruct c; cbv beta iota in H; try discriminate H;
+        repeat match type of H with
+               | (let (_, _) := v_mark_disp nxt s ?i in _) = _ =>
+                 let Q := fresh "Q" in
+                 pose proof (v_mark_disp_frame nxt s i) as Q; destruct (v_mark_disp nxt s i) as [s1 x]; specialize (Q s1 x eq_refl);
+                 destruct Q as (Q1 & Q2 & Q3 & Q4 & Q5 & Q6 & Q7 & Q8 & Q9 & Q10 & _)
+               | (if ?b then _ else _) = _ => destruct b
+               | match ?b with _ => _ end = _ => destruct b
+               end; try discriminate H; inv H;
+        repeat match goal with |- context [if ?b then _ else _] => destruct b end; vf; rewrite ?Q10; reflexivity.
+    - destruct (vs_pc s); try discriminate. destruct (tm_pending (cr_timer (vs_cron s))); inv H. reflexivity.
+    - destruct (vs_pc s) eqn:P; try discriminate.
+      + repeat match type of H with
+               | (if ?b then _ else _) = _ => destruct b
+               | match ?b with _ => _ end = _ => destruct b
+               end; try discriminate H; inv H; reflexivity.
+      + match type of H with (if ?b then _ else _) = _ => destruct b eqn:E end; inv H. vf.
+        apply andb_true_iff in E. destruct E as [E _]. rewrite (sstate_eqb_de _ _ E).
+        destruct st0; try reflexivity; [destruct ok; reflexivity | destruct upd_err; reflexivity].
+    - repeat match type of H with
+             | (if ?b then _ else _) = _ => destruct b
+             | match ?b with _ => _ end = _ => destruct b
+             end; try discriminate H; inv H; reflexivity.
+    - repeat match type of H with
+             | (if ?b then _ else _) = _ => destruct b
+             | match ?b with _ => _ end = _ => destruct b
+             end; try discriminate H; inv H; reflexivity.
+    - repeat match type of H with
+             | (if ?b then _ else _) = _ => destruct b
+             end; try discriminate H; inv H; reflexivity.
+    - discriminate H.
+  Qed.
+  Lemma owed_run sc tr : forall s s', vrun nxt sc s tr = Some s' -> owed s' = vowed (owed s) tr.
+  Proof.
+    induction tr as [|l tr IH]; intros s s' H; cbn [vrun vowed] in *; [inv H; reflexivity|].
+    destruct (vstep sc s l) as [s1|] eqn:S; [|discriminate]. rewrite (IH s1 s' H), (owed_step sc s l s1 S). reflexivity.
+  Qed.
+  Lemma disc_of_bool s l : match l with VStepBegin => negb (owed s) | _ => true end = true -> disc s l.
+  Proof.
+    destruct l; cbn [disc]; auto. unfold owed. intros E t Rt. rewrite Rt in E. discriminate E.
+  Qed.
+
+  Lemma R_run sc (F D : Prop) tr : forall s s',
+    (has_failed_mark tr = true -> F) -> VI3 (sc_clock_check sc = true) F s -> VI4 nxt s -> R D s ->
+    (D -> F -> vdispatch_err_retried (owed s) tr = true) -> vrun nxt sc s tr = Some s' -> R D s'.
+  Proof.
+    induction tr as [|l tr IH]; intros s s' HF I3 I4 I HD H; cbn [vrun has_failed_mark vdispatch_err_retried] in *.
     - inv H. exact I.
     - destruct (vstep sc s l) as [s1|] eqn:S; [|discriminate].
-      apply (IH s1 s'); [eapply vi3_step; eauto | eapply vi4_step; eauto | eapply R_step; eauto | exact H].
+      assert (HF1 : failed_mark l = true -> F) by (intros E; apply HF; rewrite E; reflexivity).
+      assert (HF2 : has_failed_mark tr = true -> F) by (intros E; apply HF; rewrite E; apply orb_true_r).
+      apply (IH s1 s' HF2); [eapply vi3_step; eauto | eapply vi4_step; eauto | | | exact H].
+      + eapply R_step; [exact I3 | exact I4 | exact I | | exact S].
+        intros Dd Ff. apply disc_of_bool. specialize (HD Dd Ff). apply andb_true_iff in HD. apply HD.
+      + intros Dd Ff. specialize (HD Dd Ff). apply andb_true_iff in HD. rewrite (owed_step sc s l s1 S). apply HD.
   Qed.
-  Theorem R_reachable sc tr s : vrun nxt sc vsys_init tr = Some s -> R s.
-  Proof. apply R_run; [apply VI3_init | apply VI4_init | apply R_init]. Qed.
+  (* RC (the timer facts) and r_last hold of EVERY accepted trace ... *)
+  Theorem R_reachable sc tr s : vrun nxt sc vsys_init tr = Some s -> R False s.
+  Proof.
+    apply (R_run sc True False); [intros _; exact Logic.I | apply VI3_init | apply VI4_init | apply R_init | intros []].
+  Qed.
+  (* ... the commitment (r_wake) of every accepted trace of a disciplined driver ... *)
+  Theorem R_disciplined sc tr s : vrun nxt sc vsys_init tr = Some s -> vtrace_disciplined tr = true -> R True s.
+  Proof.
+    intros H Dc. revert H.
+    apply (R_run sc True True); [intros _; exact Logic.I | apply VI3_init | apply VI4_init | apply R_init | intros _ _; exact Dc].
+  Qed.
+  (* ... and of every accepted trace in which no Pop inside MarkAsDispatched failed, whatever the driver does *)
+  Theorem R_faultfree sc tr s : vrun nxt sc vsys_init tr = Some s -> has_failed_mark tr = false -> R True s.
+  Proof.
+    intros H NF. revert H.
+    apply (R_run sc False True); [rewrite NF; discriminate | apply VI3_init | apply VI4_init | apply R_init | intros _ []].
+  Qed.
 
   (* ================================================================================================ *)
   (* 4. At rest                                                                                        *)
@@ -434,13 +616,13 @@ Section VRest.
 
   (* the invariant at rest: a started store whose timer has no pending fire has nothing due *)
   Theorem rest_no_due s :
-    R s -> vs_pc s = PSelect -> tm_pending (cr_timer (vs_cron s)) = false -> cr_started (vs_cron s) = true ->
+    R True s -> vs_pc s = PSelect -> tm_pending (cr_timer (vs_cron s)) = false -> cr_started (vs_cron s) = true ->
     forall p, In p (cr_pending (vs_cron s)) -> inst (vs_now s) < inst (t_sched (pt_task p)).
   Proof.
     intros I P Pe St p Hp. destruct (pt_min None (cr_pending (vs_cron s))) as [h|] eqn:Hm.
-    - destruct (r_wake s I St h Hm) as [[W|W]|C].
+    - destruct (r_wake True s I Logic.I St h Hm) as [[W|W]|C].
       + congruence.
-      + pose proof (rc_fut _ _ (r_rc s I) _ W) as F. destruct (pop_is_min _ _ Hm) as [_ Hmin].
+      + pose proof (rc_fut _ _ (r_rc True s I) _ W) as F. destruct (pop_is_min _ _ Hm) as [_ Hmin].
         pose proof (pt_lt_false_sched p h (Hmin p Hp)) as L. unfold hsched in *. lia.
       + rewrite P in C. contradiction C.
     - apply pop_none_iff in Hm. rewrite Hm in Hp. contradiction Hp.
@@ -448,13 +630,13 @@ Section VRest.
 
   (* ... and the timer is armed for exactly the head's time, which lies in the future (C17 seen from the pipeline) *)
   Theorem rest_armed_for_head s h :
-    R s -> vs_pc s = PSelect -> tm_pending (cr_timer (vs_cron s)) = false -> cr_started (vs_cron s) = true ->
+    R True s -> vs_pc s = PSelect -> tm_pending (cr_timer (vs_cron s)) = false -> cr_started (vs_cron s) = true ->
     pt_min None (cr_pending (vs_cron s)) = Some h ->
     tm_armed (cr_timer (vs_cron s)) = Some (inst (t_sched (pt_task h))) /\ inst (vs_now s) < inst (t_sched (pt_task h)).
   Proof.
-    intros I P Pe St Hm. destruct (r_wake s I St h Hm) as [[W|W]|C].
+    intros I P Pe St Hm. destruct (r_wake True s I Logic.I St h Hm) as [[W|W]|C].
     - congruence.
-    - split; [exact W|]. exact (rc_fut _ _ (r_rc s I) _ W).
+    - split; [exact W|]. exact (rc_fut _ _ (r_rc True s I) _ W).
     - rewrite P in C. contradiction C.
   Qed.
 
@@ -535,7 +717,8 @@ Section VRest2.
   Qed.
 
   (* the converse: as long as the user has not started the timer of the present store, the store is not started
-     (the scheduler's own StartTimer only runs after an error, an error needs a fire, a fire needs a started store) *)
+     (the scheduler's own StartTimer only runs after an error, an error needs a fire - or a Retry(DispatchErr) that finds
+     a recorded task, and a record needs a fire too -, a fire needs a started store) *)
   Definition good_pc (pc : spc) : Prop :=
     match pc with
     | PRestart1 _ | PRestart2 _ | PRestart3 _ | PFire1 | PFire2 _ | PDisp1 _ _ | PEnd STimerUpdateError _ => False
@@ -545,12 +728,13 @@ Section VRest2.
     a_st : cr_started (vs_cron s) = false;
     a_err : vs_err s = false;
     a_pc : good_pc (vs_pc s);
-    a_retry : vs_retry s <> Some STimerUpdateError }.
+    a_retry : vs_retry s <> Some STimerUpdateError;
+    a_rec : forall i, rec_get (vs_record s) i = None }.
 
-  Lemma Aux0_step sc G s l s' :
-    VI3 G s -> Inv17 (vs_cron s) -> Aux0 s -> vstep sc s l = Some s' -> flag_next false l = false -> Aux0 s'.
+  Lemma Aux0_step sc s l s' :
+    Inv17 (vs_cron s) -> Aux0 s -> vstep sc s l = Some s' -> flag_next false l = false -> Aux0 s'.
   Proof.
-    intros I3 I17 [Ast Aerr Apc Aret] H Fl. pose proof (v_pc _ s I3) as Ipc3.
+    intros I17 [Ast Aerr Apc Aret Arec] H Fl.
     assert (Idle : tm_pending (cr_timer (vs_cron s)) = false) by (rewrite (proj2 I17 Ast); reflexivity).
     destruct l; unfold vsys_step in H; cbv beta iota zeta in H; cbn [flag_next] in Fl; try discriminate Fl.
     - destruct (cstep nxt cron_empty (CNew now rows initial)) as [c' r] eqn:C.
@@ -567,19 +751,20 @@ Section VRest2.
       destruct prev; inv H; try (constructor; vf; cbn [good_pc]; auto; discriminate).
       exfalso. apply Aret. destruct p; try discriminate E. reflexivity.
     - destruct (vs_pc s) eqn:P; destruct c; cbv beta iota in H; try discriminate H; cbn [good_pc] in Apc; try contradiction;
-        rewrite ?Aerr, ?Ipc3 in H; cbn [negb andb] in H; try discriminate H;
+        rewrite ?Aerr, ?Arec in H; cbn [negb andb] in H; try discriminate H;
         repeat match type of H with
                | (let (_, _) := v_mark_disp nxt s ?i in _) = _ =>
                  let M := fresh "M" in let Q := fresh "Q" in
                  pose proof (v_mark_disp_started nxt s i) as M; pose proof (v_mark_disp_frame nxt s i) as Q;
                  destruct (v_mark_disp nxt s i) as [s1 x]; cbn [fst] in M; specialize (Q s1 x eq_refl);
-                 destruct Q as (Q1 & Q2 & Q3 & Q4 & Q5 & Q6 & Q7 & Q8 & Q9 & Q10 & _)
-               | (if String.eqb ?a ?b then _ else _) = _ => destruct (String.eqb_spec a b) as [->|]; rewrite ?Ipc3 in H
+                 destruct Q as (Q1 & Q2 & Q3 & Q4 & Q5 & Q6 & Q7 & Q8 & Q9 & Q10 & Q11 & _)
+               | (if String.eqb ?a ?b then _ else _) = _ => destruct (String.eqb_spec a b) as [->|]; rewrite ?Arec in H
                | (if ?b then _ else _) = _ => destruct b
                | match ?b with _ => _ end = _ => destruct b
                end; try discriminate H; inv H;
         repeat match goal with |- context [if ?b then _ else _] => destruct b end;
-        constructor; vf; cbn [good_pc]; auto; try congruence.
+        constructor; vf; cbn [good_pc]; auto; try congruence;
+        try (eapply rec_none_sub; [|exact Arec]; first [exact Q11 | intros ? ?; apply rec_del_shrinks]).
     - destruct (vs_pc s); try discriminate. rewrite Idle in H. discriminate.
     - destruct (vs_pc s) eqn:P; try discriminate.
       + repeat match type of H with
@@ -603,26 +788,28 @@ Section VRest2.
     - discriminate H.
   Qed.
 
-  Lemma Aux0_flag_step sc G s l s' st :
-    VI3 G s -> Inv17 (vs_cron s) -> (st = false -> Aux0 s) -> vstep sc s l = Some s' ->
+  Lemma Aux0_flag_step sc s l s' st :
+    Inv17 (vs_cron s) -> (st = false -> Aux0 s) -> vstep sc s l = Some s' ->
     flag_next st l = false -> Aux0 s'.
   Proof.
-    intros I3 I17 A H Fl. destruct l; cbn [flag_next] in Fl; try discriminate Fl;
-      try (eapply Aux0_step; [exact I3 | exact I17 | exact (A Fl) | exact H | reflexivity]).
+    intros I17 A H Fl. destruct l; cbn [flag_next] in Fl; try discriminate Fl;
+      try (eapply Aux0_step; [exact I17 | exact (A Fl) | exact H | reflexivity]).
     (* VNew: whatever came before *)
     unfold vsys_step in H. destruct (cstep nxt cron_empty (CNew now rows initial)) as [c' r] eqn:C.
     destruct (cres_eqb r (CRBool ok)); inv H. destruct (new_cron _ _ _ _ _ _ _ C) as [_ E2].
     constructor; vf; cbn [good_pc]; auto. discriminate.
   Qed.
   Lemma Aux0_run sc tr : forall st s s',
-    VI3 (sc_clock_check sc = true) s -> VI4 nxt s -> R s -> (st = false -> Aux0 s) ->
+    VI3 (sc_clock_check sc = true) True s -> VI4 nxt s -> R False s -> (st = false -> Aux0 s) ->
     vrun nxt sc s tr = Some s' -> vstarted_flag st tr = false -> Aux0 s'.
   Proof.
     induction tr as [|l tr IH]; intros st s s' I3 I4 I A H Fl; cbn [vrun vstarted_flag] in *.
     - replace s' with s by congruence. exact (A Fl).
     - destruct (vstep sc s l) as [s1|] eqn:S; [|discriminate].
-      apply (IH (flag_next st l) s1 s'); [eapply vi3_step; eauto | eapply vi4_step; eauto | eapply R_step; eauto | | exact H | exact Fl].
-      intros E. eapply Aux0_flag_step; [exact I3 | exact (rc17 _ _ (r_rc s I)) | exact A | exact S | exact E].
+      apply (IH (flag_next st l) s1 s');
+        [eapply vi3_step; [intros _; exact Logic.I | exact I3 | exact S] | eapply vi4_step; eauto
+         | eapply R_step; [exact I3 | exact I4 | exact I | intros [] | exact S] | | exact H | exact Fl].
+      intros E. eapply Aux0_flag_step; [exact (rc17 _ _ (r_rc False s I)) | exact A | exact S | exact E].
   Qed.
   Lemma Aux0_init : Aux0 vsys_init.
   Proof. constructor; cbn; auto. discriminate. Qed.
@@ -654,29 +841,49 @@ Section VRest2.
   (* ================================================================================================ *)
   (* 5. The theorems                                                                                   *)
   (* ================================================================================================ *)
-  (* state form: EVERY scheduler variant sc (the pinned one included), no hypothesis on the trace *)
+  (* the driver hypothesis: every DispatchErr was answered by Retry - or there was nothing to answer for, no Pop inside
+     MarkAsDispatched having failed (then a DispatchErr means the task is gone, and Step is as good as Retry) *)
+  Definition vdriver_ok (tr : list vlabel) : bool := vtrace_disciplined tr || negb (has_failed_mark tr).
+  Lemma R_driver_ok sc tr s : vrun nxt sc vsys_init tr = Some s -> vdriver_ok tr = true -> R True s.
+  Proof.
+    intros H Ok. apply orb_true_iff in Ok. destruct Ok as [Ok|Ok].
+    - exact (R_disciplined nxt sc tr s H Ok).
+    - apply negb_true_iff in Ok. exact (R_faultfree nxt sc tr s H Ok).
+  Qed.
+
+  (* state form: EVERY scheduler variant sc (the pinned one included) *)
   Theorem VC05_rest_no_due_state sc tr s :
-    vrun nxt sc vsys_init tr = Some s ->
+    vrun nxt sc vsys_init tr = Some s -> vdriver_ok tr = true ->
     vs_pc s = PSelect -> tm_pending (cr_timer (vs_cron s)) = false -> cr_started (vs_cron s) = true ->
     forall p, In p (cr_pending (vs_cron s)) -> inst (vs_now s) < inst (t_sched (pt_task p)).
-  Proof. intros H. apply rest_no_due. exact (R_reachable nxt sc tr s H). Qed.
+  Proof. intros H Ok. apply rest_no_due. exact (R_driver_ok sc tr s H Ok). Qed.
   Theorem VC05_rest_armed_for_head sc tr s h :
-    vrun nxt sc vsys_init tr = Some s -> vtimer_started tr = true ->
+    vrun nxt sc vsys_init tr = Some s -> vtimer_started tr = true -> vdriver_ok tr = true ->
     vs_pc s = PSelect -> tm_pending (cr_timer (vs_cron s)) = false ->
     pt_min None (cr_pending (vs_cron s)) = Some h ->
     tm_armed (cr_timer (vs_cron s)) = Some (inst (t_sched (pt_task h))) /\ inst (vs_now s) < inst (t_sched (pt_task h)).
   Proof.
-    intros H St P Pe. apply (rest_armed_for_head s h (R_reachable nxt sc tr s H) P Pe).
+    intros H St Ok P Pe. apply (rest_armed_for_head s h (R_driver_ok sc tr s H Ok) P Pe).
     exact (started_at_select sc tr s H St P).
   Qed.
 
-  (* A. trace form: the only hypothesis is that the user started the timer of the present store *)
+  (* A. trace form: the user started the timer of the present store, and the driver answers DispatchErr with Retry *)
   Theorem VC05_rest_no_due sc tr s :
-    vrun nxt sc vsys_init tr = Some s -> vtimer_started tr = true ->
+    vrun nxt sc vsys_init tr = Some s -> vtimer_started tr = true -> vtrace_disciplined tr = true ->
     vs_pc s = PSelect -> tm_pending (cr_timer (vs_cron s)) = false ->
     forall p, In p (cr_pending (vs_cron s)) -> inst (vs_now s) < inst (t_sched (pt_task p)).
   Proof.
-    intros H St P Pe. apply (VC05_rest_no_due_state sc tr s H P Pe). exact (started_at_select sc tr s H St P).
+    intros H St Dc P Pe. apply (VC05_rest_no_due_state sc tr s H); [unfold vdriver_ok; rewrite Dc; reflexivity | exact P | exact Pe|].
+    exact (started_at_select sc tr s H St P).
+  Qed.
+  (* ... a trace without a failed Pop inside MarkAsDispatched needs no driver discipline: the former statement *)
+  Corollary VC05_rest_no_due_faultfree sc tr s :
+    vrun nxt sc vsys_init tr = Some s -> vtimer_started tr = true -> has_failed_mark tr = false ->
+    vs_pc s = PSelect -> tm_pending (cr_timer (vs_cron s)) = false ->
+    forall p, In p (cr_pending (vs_cron s)) -> inst (vs_now s) < inst (t_sched (pt_task p)).
+  Proof.
+    intros H St NF P Pe. apply (VC05_rest_no_due_state sc tr s H); [unfold vdriver_ok; rewrite NF; apply orb_true_r | exact P | exact Pe|].
+    exact (started_at_select sc tr s H St P).
   Qed.
 
   (* the hypothesis is necessary in EVERY reachable rest state, not just in one witness: if the user has not started
@@ -693,7 +900,7 @@ Section VRest2.
   Proof.
     intros H P St Hp.
     pose proof (vtimer_started_exact sc tr s H P) as Es. rewrite St in Es.
-    pose proof (proj2 (rc17 _ _ (r_rc s (R_reachable nxt sc tr s H))) Es) as Idle.
+    pose proof (proj2 (rc17 _ _ (r_rc False s (R_reachable nxt sc tr s H))) Es) as Idle.
     set (n := T (Z.max (inst (vs_now s)) (inst (t_sched (pt_task p)))) true).
     assert (L : (inst (vs_now s) <=? inst n) = true) by (apply Z.leb_le; cbn; lia).
     exists n. eexists. split; [|split].
@@ -723,13 +930,13 @@ Section VRest2.
     intros ->. destruct (vs_pc s'); try discriminate E3. reflexivity.
   Qed.
 
-  Theorem VC05_predicate_at_rest sc tr pending now s :
+  Lemma predicate_at_rest sc tr pending now s :
     let tr' := (tr ++ [VDump pending now true])%list in
-    vrun nxt sc vsys_init tr' = Some s -> vtimer_started tr' = true ->
+    vrun nxt sc vsys_init tr' = Some s -> vtimer_started tr' = true -> vdriver_ok tr' = true ->
     tm_pending (cr_timer (vs_cron s)) = false ->
     vc05_ok tr' = true.
   Proof.
-    intros tr' H St Pe. unfold tr' in *.
+    intros tr' H St Ok Pe. unfold tr' in *.
     assert (D : exists s0, vstep sc s0 (VDump pending now true) = Some s).
     { rewrite vrun_app in H. destruct (vrun nxt sc vsys_init tr) as [s0|]; [|discriminate]. cbn [vrun] in H.
       exists s0. destruct (vstep sc s0 (VDump pending now true)); [exact H | discriminate]. }
@@ -739,7 +946,25 @@ Section VRest2.
     apply (in_map blank_id) in Hin. rewrite El in Hin. apply in_map_iff in Hin. destruct Hin as (t' & Eb & Hin).
     apply (f_equal t_sched) in Eb. cbn in Eb. rewrite <- Eb.
     unfold schedule in Hin. apply in_map_iff in Hin. destruct Hin as (p & <- & Hp). apply pt_sorted_in in Hp.
-    exact (VC05_rest_no_due sc _ s0 H St Pb Pe p Hp).
+    exact (VC05_rest_no_due_state sc _ s0 H Ok Pb Pe (started_at_select sc _ s0 H St Pb) p Hp).
+  Qed.
+  Theorem VC05_predicate_at_rest sc tr pending now s :
+    let tr' := (tr ++ [VDump pending now true])%list in
+    vrun nxt sc vsys_init tr' = Some s -> vtimer_started tr' = true -> vtrace_disciplined tr' = true ->
+    tm_pending (cr_timer (vs_cron s)) = false ->
+    vc05_ok tr' = true.
+  Proof.
+    intros tr' H St Dc Pe. apply (predicate_at_rest sc tr pending now s H St); [|exact Pe].
+    unfold vdriver_ok. fold tr'. rewrite Dc. reflexivity.
+  Qed.
+  Corollary VC05_predicate_at_rest_faultfree sc tr pending now s :
+    let tr' := (tr ++ [VDump pending now true])%list in
+    vrun nxt sc vsys_init tr' = Some s -> vtimer_started tr' = true -> has_failed_mark tr' = false ->
+    tm_pending (cr_timer (vs_cron s)) = false ->
+    vc05_ok tr' = true.
+  Proof.
+    intros tr' H St NF Pe. apply (predicate_at_rest sc tr pending now s H St); [|exact Pe].
+    unfold vdriver_ok. fold tr'. rewrite NF. apply orb_true_r.
   Qed.
 End VRest2.
 
@@ -781,6 +1006,25 @@ Theorem VC05_rest_replaced_refuted :
   vrest_report scfg_fixed vcex_replaced = (true, false, false, [true], false, None, false).
 Proof. vm_compute. reflexivity. Qed.
 
+(* the driver answers a DispatchErr (the store's Pop failed: nothing popped, nothing re-armed, the fire is consumed) with
+   Step instead of Retry: Step finds no lastTask and no error flag and waits on an idle timer with the head due *)
+Definition vcex_no_retry : list vlabel :=
+  (ex_prefix ++
+   [VCall CGetNext (RRes (RTask ex_obs)); VCall CNextSched (RTime (Some ex_t1)); VStepEnd (SNextTask true (Some ex_obs)) false;
+    VStepBegin; VCall CLtue (RBool false); VCall (CMarkDisp "A") (RRes (RErr EOther)); VStepEnd (SDispatchErr ex_obs) false;
+    VStepBegin; VCall CLtue (RBool false); VCall CTimerCh RUnit])%list.
+Theorem VC05_rest_no_retry_refuted :
+  (* accepted, at rest, the store is started (by the user: vtimer_started), the pending occurrence is due, the trace
+     with the final dump is accepted and fails vc05_ok; the only hypothesis of VC05_rest_no_due that fails is the driver's *)
+  vrest_report scfg_fixed vcex_no_retry = (true, false, true, [true], true, None, false)
+  /\ vtrace_disciplined vcex_no_retry = false /\ has_failed_mark vcex_no_retry = true
+  /\ vrest_report scfg_pinned vcex_no_retry = (true, false, true, [true], true, None, false).
+Proof. vm_compute. repeat split. Qed.
+(* the witnesses above are not of this kind: their drivers are disciplined *)
+Example VC05_other_witnesses_disciplined :
+  vtrace_disciplined vcex_unstarted = true /\ vtrace_disciplined vcex_pending = true /\ vtrace_disciplined vcex_replaced = true.
+Proof. vm_compute. repeat split. Qed.
+
 (* C. a complete run satisfying every hypothesis of VC05_predicate_at_rest: the occurrence of 00:01 fires, is
    announced, dispatched (the store pops and re-arms for 00:02), runs, ends, is marked done; Step goes back to select *)
 Definition ex_t2m := T 120000000000 true.
@@ -794,7 +1038,7 @@ Definition ex_rest_run : list vlabel :=
 Definition ex_rest_trace : list vlabel := (ex_rest_run ++ [VDump [ex_next] ex_t1 true])%list.
 Example VC05_nonvacuous :
   exists s, vrun ex_nxt scfg_fixed vsys_init ex_rest_trace = Some s
-            /\ vtimer_started ex_rest_trace = true
+            /\ vtimer_started ex_rest_trace = true /\ vtrace_disciplined ex_rest_trace = true
             /\ tm_pending (cr_timer (vs_cron s)) = false
             /\ vs_pc s = PSelect /\ cr_timer (vs_cron s) = mkTimer (Some (inst ex_t2m)) false
             /\ map (fun p => t_sched (pt_task p)) (cr_pending (vs_cron s)) = [ex_t2m]
@@ -804,19 +1048,48 @@ Proof. eexists. split; [vm_compute; reflexivity|]. vm_compute. repeat split. Qed
 (* the theorem applied to it *)
 Example VC05_nonvacuous_by_theorem : vc05_ok ex_rest_trace = true.
 Proof.
-  destruct VC05_nonvacuous as (s & H & St & Pe & _).
-  exact (VC05_predicate_at_rest ex_nxt scfg_fixed ex_rest_run [ex_next] ex_t1 s H St Pe).
+  destruct VC05_nonvacuous as (s & H & St & Dc & Pe & _).
+  exact (VC05_predicate_at_rest ex_nxt scfg_fixed ex_rest_run [ex_next] ex_t1 s H St Dc Pe).
 Qed.
 (* the same run under the PINNED scheduler (no clock check, no error on mismatch): the theorems do not need the repairs *)
 Example VC05_nonvacuous_pinned :
   exists s, vrun ex_nxt scfg_pinned vsys_init ex_rest_trace = Some s /\ vc05_ok ex_rest_trace = true.
 Proof. eexists. split; [vm_compute; reflexivity|]. vm_compute. reflexivity. Qed.
 
+(* the same with a Pop that fails once: DispatchErr, Retry finds the record, dispatches (pop + re-arm); at rest nothing due *)
+Definition ex_retry_rest_run : list vlabel :=
+  (ex_retry_trace ++
+   [VWorkEnd "A" ONil; VStepBegin; VCall CLtue (RBool false); VCall CTimerCh RUnit;
+    VCall (CMarkDone "A" None) (RRes ROk); VStepEnd (STaskDone "A" ONil false) false;
+    VStepBegin; VCall CLtue (RBool false); VCall CTimerCh RUnit])%list.
+Definition ex_retry_rest_trace : list vlabel := (ex_retry_rest_run ++ [VDump [ex_next] ex_t1 true])%list.
+Example VC05_nonvacuous_retry :
+  exists s, vrun ex_nxt scfg_fixed vsys_init ex_retry_rest_trace = Some s
+            /\ vtimer_started ex_retry_rest_trace = true /\ vtrace_disciplined ex_retry_rest_trace = true
+            /\ has_failed_mark ex_retry_rest_trace = true
+            /\ tm_pending (cr_timer (vs_cron s)) = false
+            /\ vs_pc s = PSelect /\ cr_timer (vs_cron s) = mkTimer (Some (inst ex_t2m)) false
+            /\ vs_starts s = [("A", ex_t1, ex_obs)] /\ vs_results s = [] /\ vs_record s = []
+            /\ vall_ok ex_retry_rest_trace = true.
+Proof. eexists. split; [vm_compute; reflexivity|]. vm_compute. repeat split. Qed.
+Example VC05_nonvacuous_retry_by_theorem : vc05_ok ex_retry_rest_trace = true.
+Proof.
+  destruct VC05_nonvacuous_retry as (s & H & St & Dc & _ & Pe & _).
+  exact (VC05_predicate_at_rest ex_nxt scfg_fixed ex_retry_rest_run [ex_next] ex_t1 s H St Dc Pe).
+Qed.
+
 Print Assumptions R_step.
 Print Assumptions R_reachable.
 Print Assumptions rest_no_due.
 Print Assumptions VC05_rest_no_due_state.
 Print Assumptions VC05_rest_no_due.
+Print Assumptions VC05_rest_no_due_faultfree.
+Print Assumptions R_disciplined.
+Print Assumptions R_faultfree.
+Print Assumptions VC05_predicate_at_rest_faultfree.
+Print Assumptions VC05_rest_no_retry_refuted.
+Print Assumptions VC05_nonvacuous_retry.
+Print Assumptions VC05_nonvacuous_retry_by_theorem.
 Print Assumptions vtimer_started_exact.
 Print Assumptions VC05_unstarted_strands.
 Print Assumptions VC05_rest_armed_for_head.
